@@ -23,9 +23,8 @@ def run(prop, led, seed):
                                         "violations": len(bad2), "functions": nf2}
     except extract.ExtractionError as e:
         led.checker_error("debug-checks configuration could not be extracted: %s" % e)
-    try:
-        from . import selftest
-        extra.update(selftest.run(prop, led, seed))
-    except ImportError:
-        pass
+    from . import witness
+    extra.update(witness.run(prop, led))
+    from . import selftest
+    extra.update(selftest.run(prop, led, seed))
     return extra
